@@ -59,6 +59,16 @@ type Module struct {
 	NilTerms map[string]string `json:"nil_terms"`
 	// package-level constants that are emitted even when no translated function refers to them
 	Consts []*ConstCfg `json:"consts"`
+	// package-level variables that are never assigned after initialisation (sentinel errors): "pkg:Name" -> reading
+	Vars map[string]*VarCfg `json:"vars"`
+	// calls without side effects: an if statement whose branches are empty (after ignore_calls) and whose
+	// condition consists of such calls only is left out
+	PureCalls []string `json:"pure_calls"`
+}
+
+type VarCfg struct {
+	Lean string `json:"lean"`
+	Type string `json:"type"`
 }
 
 type ConstCfg struct {
@@ -98,6 +108,11 @@ type FuncCfg struct {
 	Extra []string `json:"extra"` // callees (by their "go" name) that are parameters of the translated function
 	// int arithmetic of this function is translated without wrap-around (assumption: no overflow, e.g. a counter)
 	IntNoWrap bool `json:"int_nowrap"`
+	// the result of type error is a value of the configured Lean type of "error" (sentinel errors), not the
+	// some/none reading of the (value, error) idiom
+	ErrorValue bool `json:"error_value"`
+	// parameters whose Go type is read as another (pseudo) type of "leantypes": parameter name -> type
+	ParamTypes map[string]string `json:"param_types"`
 }
 
 type Callee struct {
@@ -111,6 +126,8 @@ type Callee struct {
 	Param  string   `json:"param"` // environment functions (DNS lookup, URL parser) become parameters: Lean type of the parameter
 	PName  string   `json:"param_name"`
 	Field  bool     `json:"field"` // "Type.Field" of a library type: a field read, not a call
+	// optional: the Go types the arguments must have ("_" = any)
+	ArgTypes []string `json:"argtypes"`
 }
 
 // ---------------------------------------------------------------- packages of the repo
@@ -391,6 +408,9 @@ func (t *translator) structOf(tp string) *StructCfg {
 }
 
 func (t *translator) leanType(tp string) string {
+	if l, ok := t.mod.LeanTypes[tp]; ok && strings.HasPrefix(tp, "*") {
+		return l // a pointer type with a configured reading (e.g. an option: the pointer may be nil)
+	}
 	if sc := t.structOf(tp); sc != nil {
 		n := t.mod.Namespace + "." + sc.Lean
 		if t.mod.TypeArgs != "" {
@@ -1026,6 +1046,11 @@ func (ft *ftrans) ident(c *ast.Ident, e env) val {
 	if cd, ok := ft.f.pkg.consts[c.Name]; ok && (c.Obj == nil || c.Obj.Kind == ast.Con) {
 		return ft.constRef(ft.f.pkg, cd)
 	}
+	if vc, ok := ft.t.mod.Vars[ft.f.pkg.dir+":"+c.Name]; ok && ft.f.pkg.vars[c.Name] && (c.Obj == nil || c.Obj.Kind == ast.Var) {
+		if _, local := e[c.Obj]; !local {
+			return val{s: vc.Lean, t: vc.Type}
+		}
+	}
 	failf("identifier %s is outside the subset (not a local, parameter or constant)", c.Name)
 	return val{}
 }
@@ -1044,6 +1069,12 @@ func (ft *ftrans) selector(c *ast.SelectorExpr, e env, pre *[]prelude) val {
 	}
 	// field of a struct of the repo
 	x := ft.expr(c.X, e, pre)
+	if _, nilable := ft.t.mod.NilTests[x.t]; nilable && strings.HasPrefix(x.t, "*") {
+		// the pointer may be nil: reading a field through it can panic
+		n := ft.tmp()
+		*pre = append(*pre, prelude{n, x.s})
+		x.s = n
+	}
 	tp := strings.TrimPrefix(x.t, "*")
 	k := strings.LastIndex(tp, ".")
 	if k >= 0 {
@@ -1074,6 +1105,19 @@ func (ft *ftrans) selector(c *ast.SelectorExpr, e env, pre *[]prelude) val {
 func (ft *ftrans) binary(c *ast.BinaryExpr, e env, pre *[]prelude) val {
 	if cv := ft.constOf(c, e); cv != nil {
 		return cv.lean()
+	}
+	if key := ft.libVar(c.Y); key != "" && (c.Op == token.EQL || c.Op == token.NEQ) {
+		// x == pkg.Var for a variable of a library package: a configured observation of x
+		a := ft.expr(c.X, e, pre)
+		tpl, ok := ft.t.mod.Ops[ft.t.under(a.t)]["==:"+key]
+		if !ok {
+			failf("comparison of a value of type %q with %s is outside the subset (no template)", a.t, key)
+		}
+		r := "(" + subst(tpl, "", []string{atom(a.s)}) + ")"
+		if c.Op == token.NEQ {
+			r = "(!" + r + ")"
+		}
+		return val{s: r, t: "bool"}
 	}
 	if v, ok := ft.opsBinary(c, e, pre); ok {
 		return v
@@ -1238,6 +1282,26 @@ func (ft *ftrans) opsBinary(c *ast.BinaryExpr, e env, pre *[]prelude) (val, bool
 		rt = "bool"
 	}
 	return val{s: "(" + subst(tpl, "", []string{atom(a.s), atom(b.s)}) + ")", t: rt}, true
+}
+
+// libVar: "import/path.Name" when x names something of a library (non-repo) package
+func (ft *ftrans) libVar(x ast.Expr) string {
+	sel, ok := unparen(x).(*ast.SelectorExpr)
+	if !ok {
+		return ""
+	}
+	id, ok := sel.X.(*ast.Ident)
+	if !ok || id.Obj != nil {
+		return ""
+	}
+	path, ok := ft.f.pkg.imports[ft.f.file][id.Name]
+	if !ok {
+		return ""
+	}
+	if _, repo := ft.t.repoDir(path); repo {
+		return ""
+	}
+	return path + "." + sel.Sel.Name
 }
 
 func pick(a, b string) string {
@@ -1413,6 +1477,9 @@ func (ft *ftrans) applyCallee(c *Callee, recv string, args []ast.Expr, e env, pr
 			continue
 		}
 		v := ft.expr(a, e, pre)
+		if i < len(c.ArgTypes) && c.ArgTypes[i] != "_" && c.ArgTypes[i] != v.t {
+			failf("argument %d of %s has type %q, the callee table asks for %q", i, c.Go, v.t, c.ArgTypes[i])
+		}
 		as = append(as, atom(v.s))
 	}
 	term := subst(c.Lean, recv, as)
@@ -1604,6 +1671,12 @@ func (ft *ftrans) call(c *ast.CallExpr, e env, pre *[]prelude) val {
 			}
 		}
 		if cal := ft.findCallee(recv.t+"."+f.Sel.Name, c.Args, e); cal != nil {
+			if _, nilable := ft.t.mod.NilTests[recv.t]; nilable {
+				// a method call through a nil pointer / nil interface panics
+				n := ft.tmp()
+				*pre = append(*pre, prelude{n, recv.s})
+				recv.s = n
+			}
 			return ft.applyCallee(cal, atom(recv.s), c.Args, e, pre)
 		}
 		failf("method %s on a value of type %q is outside the subset", f.Sel.Name, recv.t)
@@ -1723,6 +1796,9 @@ func (ft *ftrans) block(stmts []ast.Stmt, e env, k cont) node {
 			s2.Init = nil
 			return ft.block([]ast.Stmt{s.Init, &s2}, e, rest)
 		}
+		if ft.emptyAfterIgnore(s) && ft.pureExpr(s.Cond) {
+			return rest(e) // nothing but ignored calls (logging) behind a condition without side effects
+		}
 		if n := ft.joinIf(s, e, rest); n != nil {
 			return n
 		}
@@ -1781,6 +1857,73 @@ func (ft *ftrans) ignored(ce *ast.CallExpr) bool {
 		}
 	}
 	return false
+}
+
+// emptyAfterIgnore: every branch of the if statement consists of ignored calls only
+func (ft *ftrans) emptyAfterIgnore(s *ast.IfStmt) bool {
+	if s.Init != nil {
+		return false
+	}
+	var blockOK func(b *ast.BlockStmt) bool
+	blockOK = func(b *ast.BlockStmt) bool {
+		for _, st := range b.List {
+			es, ok := st.(*ast.ExprStmt)
+			if !ok {
+				return false
+			}
+			ce, ok := es.X.(*ast.CallExpr)
+			if !ok || !ft.ignored(ce) {
+				return false
+			}
+		}
+		return true
+	}
+	if !blockOK(s.Body) {
+		return false
+	}
+	switch el := s.Else.(type) {
+	case nil:
+		return true
+	case *ast.BlockStmt:
+		return blockOK(el)
+	case *ast.IfStmt:
+		return ft.emptyAfterIgnore(el) && ft.pureExpr(el.Cond)
+	}
+	return false
+}
+
+// pureExpr: identifiers, literals, operators and calls listed in "pure_calls" only (no index, no receive)
+func (ft *ftrans) pureExpr(x ast.Expr) bool {
+	ok := true
+	ast.Inspect(x, func(n ast.Node) bool {
+		switch c := n.(type) {
+		case nil, *ast.Ident, *ast.BasicLit, *ast.ParenExpr, *ast.BinaryExpr, *ast.SelectorExpr:
+		case *ast.UnaryExpr:
+			if c.Op == token.ARROW {
+				ok = false
+			}
+		case *ast.CallExpr:
+			name := ft.qualName(c.Fun)
+			hit := false
+			for _, pc := range ft.t.mod.PureCalls {
+				if pc == name {
+					hit = true
+				}
+				if strings.HasPrefix(pc, "*.") {
+					if sel, isSel := c.Fun.(*ast.SelectorExpr); isSel && sel.Sel.Name == pc[2:] {
+						hit = true
+					}
+				}
+			}
+			if !hit {
+				ok = false
+			}
+		default:
+			ok = false
+		}
+		return ok
+	})
+	return ok
 }
 
 func render(e ast.Expr) string {
@@ -1891,7 +2034,7 @@ func (ft *ftrans) ret(s *ast.ReturnStmt, e env) node {
 		if v.opt != nil {
 			failf("a multi-valued call as one of several results")
 		}
-		ft.assignable(f.results[i], v)
+		v = ft.coerce(f.results[i], v)
 		vs = append(vs, v.s)
 	}
 	vs = append(vs, ft.mutatedNames()...)
@@ -2210,6 +2353,46 @@ func (ft *ftrans) assign(s *ast.AssignStmt, e env, k cont) node {
 	if len(s.Rhs) != 1 {
 		failf("assignment with %d values for %d variables is outside the subset", len(s.Rhs), len(s.Lhs))
 	}
+	// v, ok := x.(T): configured per type of x — "assert:T" is the test, the value is x read as a T that may be nil
+	if ta, isTA := unparen(s.Rhs[0]).(*ast.TypeAssertExpr); isTA && len(s.Lhs) == 2 && ta.Type != nil {
+		if s.Tok != token.DEFINE {
+			failf("v, ok = x.(T) without := is outside the subset")
+		}
+		x := ft.expr(ta.X, e, &pre)
+		to := ft.t.typeOf(ft.f.pkg, ft.f.file, ta.Type)
+		tpl, ok := ft.t.mod.Ops[ft.t.under(x.t)]["assert:"+to]
+		if !ok {
+			failf("type assertion from %q to %q is outside the subset (no template)", x.t, to)
+		}
+		nilTerm, ok := ft.t.mod.NilTerms[to]
+		if !ok {
+			failf("type assertion to %q: the type needs a nil term (nil_terms)", to)
+		}
+		vtpl, ok := ft.t.mod.Ops[ft.t.under(x.t)]["as:"+to]
+		if !ok {
+			failf("type assertion from %q to %q is outside the subset (no value template)", x.t, to)
+		}
+		okName := ft.tmp()
+		e2 := e
+		var lets []nLet
+		if vo := ft.lhsObj(s.Lhs[0]); vo != nil {
+			name := ft.nameOf(vo)
+			lets = append(lets, nLet{name: name, typ: ft.t.leanType(to), val: "(if " + okName + " then " + subst(vtpl, "", []string{atom(x.s)}) + " else " + nilTerm + ")"})
+			e2 = e2.with(vo, binding{kind: bVar, lean: name, typ: to})
+		}
+		if oo := ft.lhsObj(s.Lhs[1]); oo != nil {
+			name := ft.nameOf(oo)
+			lets = append(lets, nLet{name: name, typ: "Bool", val: okName})
+			e2 = e2.with(oo, binding{kind: bVar, lean: name, typ: "bool"})
+		}
+		n := k(e2)
+		for i := len(lets) - 1; i >= 0; i-- {
+			l := lets[i]
+			l.body = n
+			n = l
+		}
+		return ft.wrap(pre, nLet{name: okName, typ: "Bool", val: "(" + subst(tpl, "", []string{atom(x.s)}) + ")", body: n})
+	}
 	// v, ok := m[k]
 	if ix, isIx := unparen(s.Rhs[0]).(*ast.IndexExpr); isIx && len(s.Lhs) == 2 {
 		m := ft.expr(ix.X, e, &pre)
@@ -2458,6 +2641,14 @@ func (ft *ftrans) canPanic(x ast.Expr, e env) bool {
 		switch c := n.(type) {
 		case *ast.IndexExpr, *ast.SliceExpr:
 			found = true
+		case *ast.SelectorExpr:
+			if len(ft.t.mod.NilTests) > 0 {
+				if tp := ft.typeOfExpr(c.X, e); strings.HasPrefix(tp, "*") {
+					if _, nilable := ft.t.mod.NilTests[tp]; nilable {
+						found = true
+					}
+				}
+			}
 		case *ast.CallExpr:
 			if g := ft.calledFn(c, e); g != nil {
 				ft.t.translate(g)
@@ -2469,6 +2660,26 @@ func (ft *ftrans) canPanic(x ast.Expr, e env) bool {
 		return !found
 	})
 	return found
+}
+
+// typeOfExpr: the Go type of an expression, "" when it cannot be translated on its own
+func (ft *ftrans) typeOfExpr(x ast.Expr, e env) (tp string) {
+	defer func() {
+		if r := recover(); r != nil {
+			if _, ok := r.(failure); !ok {
+				if _, ok := r.(needPanic); !ok {
+					panic(r)
+				}
+			}
+			tp = ""
+		}
+	}()
+	if id, ok := x.(*ast.Ident); ok && id.Obj == nil {
+		return "" // a package name
+	}
+	sub := *ft
+	var scratch []prelude
+	return sub.expr(x, e, &scratch).t
 }
 
 func (ft *ftrans) stmtCanPanic(st ast.Stmt, e env) bool {
@@ -2757,9 +2968,6 @@ func (ft *ftrans) rng(s *ast.RangeStmt, e env, k cont) node {
 			xs, et = val{s: "(Gen.Rt.Map.vals " + atom(xs.s) + ")"}, vt
 		}
 	} else {
-		if !blank(s.Key) {
-			failf("range with an index variable is outside the subset")
-		}
 		if !strings.HasPrefix(u, "[]") {
 			failf("range over a value of type %q is outside the subset", xs.t)
 		}
@@ -2772,6 +2980,24 @@ func (ft *ftrans) rng(s *ast.RangeStmt, e env, k cont) node {
 			vname = ft.nameOf(o)
 			e2 = e.with(o, binding{kind: bVar, lean: vname, typ: et})
 		}
+	}
+	// for i, x := range xs over a slice: the loop runs over the pairs (index, element)
+	var withIndex func(n node) node
+	pairT := ""
+	if _, _, isMap := mapParts(u); !isMap && !blank(s.Key) {
+		ko := ft.lhsObj(s.Key)
+		iname := ft.nameOf(ko)
+		e2 = e2.with(ko, binding{kind: bVar, lean: iname, typ: "int"})
+		pv := ft.tmp()
+		elemName, elemT := vname, ft.t.leanType(et)
+		withIndex = func(n node) node {
+			if elemName != "_" {
+				n = nLet{name: elemName, typ: elemT, val: pv + ".2", body: n}
+			}
+			return nLet{name: iname, typ: "Int", val: pv + ".1", body: n}
+		}
+		xs = val{s: "(Gen.Rt.enum " + atom(xs.s) + ")"}
+		vname, pairT = pv, "(Int × "+elemT+")"
 	}
 	ast.Inspect(s.Body, func(n ast.Node) bool {
 		if br, ok := n.(*ast.BranchStmt); ok {
@@ -2807,7 +3033,11 @@ func (ft *ftrans) rng(s *ast.RangeStmt, e env, k cont) node {
 		ft.inFold = true
 		body := ft.block(s.Body.List, e2, func(env) node { return nLeaf{pat} })
 		ft.inFold = false
-		return ft.wrap(pre, nFold{pat: pat, xs: atom(xs.s), v: vname, vt: ft.t.leanType(et), body: body, rest: k(e)})
+		vt := ft.t.leanType(et)
+		if withIndex != nil {
+			body, vt = withIndex(body), pairT
+		}
+		return ft.wrap(pre, nFold{pat: pat, xs: atom(xs.s), v: vname, vt: vt, body: body, rest: k(e)})
 	}
 	ft.loopOuter = map[*ast.Object]bool{}
 	for o := range e {
@@ -2817,7 +3047,11 @@ func (ft *ftrans) rng(s *ast.RangeStmt, e env, k cont) node {
 	body := ft.block(s.Body.List, e2, func(env) node { return nLeaf{"none"} })
 	ft.inLoop = false
 	ft.loopOuter = nil
-	return ft.wrap(pre, nRange{xs: atom(xs.s), v: vname, vt: ft.t.leanType(et), r: ft.tmp(), body: body, rest: k(e)})
+	vt := ft.t.leanType(et)
+	if withIndex != nil {
+		body, vt = withIndex(body), pairT
+	}
+	return ft.wrap(pre, nRange{xs: atom(xs.s), v: vname, vt: vt, r: ft.tmp(), body: body, rest: k(e)})
 }
 
 // ---------------------------------------------------------------- driver
@@ -2845,7 +3079,11 @@ func (t *translator) analyse(g *fn) {
 			g.params = append(g.params, param{name: "_", typ: tp})
 		}
 		for _, n := range names {
-			g.params = append(g.params, param{name: n.Name, typ: tp, obj: n.Obj})
+			ptp := tp
+			if alias, ok := g.cfg.ParamTypes[n.Name]; ok {
+				ptp = alias
+			}
+			g.params = append(g.params, param{name: n.Name, typ: ptp, obj: n.Obj})
 		}
 	}
 	if g.decl.Recv != nil {
@@ -2901,12 +3139,12 @@ func (t *translator) analyse(g *fn) {
 		}
 		g.results = append(g.results, t.typeOf(g.pkg, g.file, f.Type))
 	}
-	if len(g.results) > 0 && g.results[len(g.results)-1] == "error" {
+	if len(g.results) > 0 && g.results[len(g.results)-1] == "error" && !g.cfg.ErrorValue {
 		g.fallible = true
 		g.results = g.results[:len(g.results)-1]
 	}
 	for _, r := range g.results {
-		if r == "error" {
+		if r == "error" && !g.cfg.ErrorValue {
 			failf("an error result that is not the last result is outside the subset")
 		}
 	}
